@@ -49,7 +49,8 @@ EXTENDS Integers, Sequences, FiniteSets, TLC, SessionCacheSeq
 CONSTANTS Gor,        \* goroutines (strings "g1", "g2", ...)
           Nobody,     \* model value: lock not held
           Ids,        \* session ids (strings)
-          MaxOps,     \* operations per goroutine
+          MaxOps,     \* operations per goroutine (upper bound)
+          MaxOpsOf,   \* [Gor -> operations of that goroutine] (cfg: MaxOpsOf <- LimitsAll / LimitsQuick)
           MaxVer,     \* Store may create objects <<id,1>> .. <<id,MaxVer>>
           OpsOf,      \* [Gor -> set of operations the goroutine may choose] (cfg: OpsOf <- Roles...)
           InitKinds,  \* initial state of each id: subset of {"absent","live","dead"}
@@ -138,7 +139,7 @@ EntryLocked(op) ==
 -----------------------------------------------------------------------------
 (* Begin: call + first lock acquisition (blocks until the lock is free) *)
 Begin(g) ==
-  /\ th[g].pc = "idle" /\ th[g].n < MaxOps
+  /\ th[g].pc = "idle" /\ th[g].n < MaxOpsOf[g]
   /\ \E op \in OpsOf[g] :
        /\ \E i \in (IF op \in CacheOpsId THEN Ids ELSE {"-"}),
              o \in (IF op \in EntryOps THEN Published ELSE {NoObj}) :
@@ -365,7 +366,10 @@ Step(g) == \/ Begin(g) \/ WMap(g) \/ RMap(g) \/ AcqE(g) \/ RExp1(g) \/ RExp2(g)
 Next == \E g \in Gor : Step(g)
 Spec == Init /\ [][Next]_vars
 
-(* role assignments used by the configurations (substituted for OpsOf) *)
+(* operation budgets and role assignments used by the configurations *)
+LimitsAll   == [g \in Gor |-> MaxOps]
+LimitsQuick == [g \in Gor |-> IF g = "g3" THEN 1 ELSE MaxOps]     \* the maintenance goroutine runs one operation
+
 AllOps == CacheOpsId \cup CacheOpsAll \cup EntryOps \cup OtherOps
 RolesAll  == [g \in Gor |-> AllOps]
 RolesCore == [g \in Gor |-> {"Store", "Lookup", "Invalidate", "Sweep", "Dump", "Renew"}]
@@ -423,7 +427,7 @@ Linearizable == \A g \in Gor : th[g].pc = "rel" => th[g].res = th[g].ares
 HandshakeUndisturbed == \A g \in Gor : th[g].pc = "hret" => th[g].res = th[g].ares
 
 \* no deadlock: somebody can move unless everybody is finished
-Progress == (\A g \in Gor : th[g].pc = "idle" /\ th[g].n = MaxOps) \/ ENABLED Next
+Progress == (\A g \in Gor : th[g].pc = "idle" /\ th[g].n = MaxOpsOf[g]) \/ ENABLED Next
 
 TypeOK ==
   /\ cmuW \in Gor \cup {Nobody} /\ cmuR \subseteq Gor
